@@ -219,6 +219,14 @@ func mergeStates(ins []edgeIn) (*State, error) {
 		}
 		m, err := mergeVals(conds, vals)
 		if err != nil {
+			if pt, ok := k.Type().(*types.Pointer); ok {
+				if _, isFn := pt.Elem().Underlying().(*types.Signature); isFn {
+					// different function values on the incoming paths: afterwards the local holds an
+					// unknown function (a call through it is a dynamic call)
+					out.Allocs[k] = freshVal("fnmerge", pt.Elem())
+					continue
+				}
+			}
 			// typically the stale parameter cell of an inlined callee that was called with different
 			// interior pointers on the two paths: drop it; a later read of a dropped local is an
 			// engine error ("not initialised in this state"), never a silent default
